@@ -69,7 +69,9 @@ Definition fifo_law (s s' : state) (o : list output) (new : list nat) : Prop :=
 Definition wire_law (s s' : state) (o : list output) : Prop :=
   wire_ids o = [] \/
   (exists r tx d, wire_ids o = [rq_id r] /\ ph s' = PInFlight r tx d /\ d = now s + rq_timeout r /\
-                  (ph s = PIdle \/ exists u, ph s = PWriting r tx u) /\ completed o = []).
+                  (ph s = PIdle \/ exists u, ph s = PWriting r tx u) /\ completed o = [] /\
+                  (forall tx' id', In (OWire tx' id') o -> tx' = tx /\ id' = rq_id r) /\
+                  (ph s = PIdle -> In (OStamp tx (rq_id r)) o)).
 
 Definition laws (s s' : state) (o : list output) (new : list nat) : Prop :=
   tx_law s s' o /\ fifo_law s s' o new /\ wire_law s s' o.
@@ -112,7 +114,9 @@ Proof.
     + destruct (wdelay (set_txid s v') =? 0).
       * split; [right; rewrite E; split; reflexivity|]. split.
         -- unfold waiting. cbn. rewrite Hp. cbn. apply subseq_refl.
-        -- right. exists r, tx, (now (set_txid s v') + rq_timeout r). repeat split. left. exact Hp.
+        -- right. exists r, tx, (now (set_txid s v') + rq_timeout r). split; [reflexivity|]. split; [reflexivity|]. split; [reflexivity|].
+           split; [left; exact Hp|]. split; [reflexivity|]. split; [|intros _; left; reflexivity].
+           intros tx' id' [X|[X|[]]]; [discriminate|inversion X; auto].
       * split; [right; rewrite E; split; reflexivity|]. split; [|left; reflexivity].
         unfold waiting. cbn. rewrite Hp. cbn. apply subseq_refl.
   - specialize (Hfin (set_txid s v') (RErr ReBadRequest) [OStamp tx (rq_id r)]).
@@ -278,7 +282,9 @@ Proof.
     + destruct (fire cfg until <=? now s); [|apply laws_nochange; reflexivity].
       split; [left; split; reflexivity|]. split.
       * unfold fifo_law, waiting. cbn. rewrite Eph. cbn. rewrite app_nil_r. apply subseq_refl.
-      * right. exists r, tx, (now s + rq_timeout r). repeat split. right. exists until. exact Eph.
+      * right. exists r, tx, (now s + rq_timeout r). split; [reflexivity|]. split; [reflexivity|]. split; [reflexivity|].
+        split; [right; exists until; exact Eph|]. split; [reflexivity|]. split; [|intros X; rewrite Eph in X; discriminate].
+        intros tx' id' [X|[]]. inversion X; auto.
     + destruct (fire cfg deadline <=? now s); [|apply laws_nochange; reflexivity].
       pose proof (finish_summary s r (RErr deadline_error)) as H. destruct (finish s r (RErr deadline_error)) as [s' o]. by_summary H.
     + destruct (fire cfg until <=? now s); [|apply laws_nochange; reflexivity].
@@ -398,6 +404,117 @@ Proof.
       pose proof (loop_top_summary s) as H. destruct (loop_top s) as [s' o]. apply enters_nil; exact (proj1 H).
   - destruct (ph s) eqn:Eph; try (pose proof (crash_summary s) as H; destruct (crash s) as [s' o]; apply enters_nil; exact (proj1 H)).
     apply enters_same. reflexivity.
+Qed.
+
+
+(* a write is in progress after a step only if it was already, or if this step stamped the request *)
+Definition entersw (s s' : state) (o : list output) : Prop :=
+  forall r tx u, ph s' = PWriting r tx u -> ph s = PWriting r tx u \/ In (OStamp tx (rq_id r)) o.
+
+Lemma entersw_same s s' o : ph s' = ph s -> entersw s s' o.
+Proof. intros Hp r tx d H. left. rewrite <- Hp. exact H. Qed.
+Lemma entersw_nil s s' o : inflight (ph s') = [] -> entersw s s' o.
+Proof. intros Hi r tx d H. rewrite H in Hi. discriminate. Qed.
+
+Lemma transmit_entersw s r : let '(s', o) := transmit s r in entersw s s' o.
+Proof.
+  unfold transmit. destruct (txid_next (txid s)) as [v' tx]. destruct (rq_kind r).
+  - destruct (wfail (set_txid s v')).
+    + pose proof (finish_summary (set_wctl (set_txid s v') false 0) r (RErr ReIo)) as H. destruct (finish _ r (RErr ReIo)) as [s' o].
+      apply entersw_nil; exact (proj1 H).
+    + destruct (wdelay (set_txid s v') =? 0).
+      * intros r0 tx0 d0 H. discriminate H.
+      * intros r0 tx0 d0 H. cbn in H. inversion H; subst. right. left. reflexivity.
+  - pose proof (finish_summary (set_txid s v') r (RErr ReBadRequest)) as H. destruct (finish _ r (RErr ReBadRequest)) as [s' o].
+    apply entersw_nil; exact (proj1 H).
+Qed.
+
+Lemma take_entersw s0 s c : ph s0 = ph s -> listens (ph s) = true -> let '(s', o) := take s0 c in entersw s s' o.
+Proof.
+  intros Hp Hl. unfold take. rewrite Hp.
+  assert (Hterm : forall x pre, silent pre -> let '(s', o) := terminate x pre in entersw s s' o).
+  { intros x pre Hs. pose proof (terminate_summary x pre Hs) as H. destruct (terminate x pre) as [s' o]. apply entersw_nil; exact (proj1 H). }
+  assert (Hloop : forall x, let '(s', o) := loop_top x in entersw s s' o).
+  { intros x. pose proof (loop_top_summary x) as H. destruct (loop_top x) as [s' o]. apply entersw_nil; exact (proj1 H). }
+  assert (Hends : forall x se, inflight (ph x) = [] -> let '(s', o) := end_session x se in entersw s s' o).
+  { intros x se Hi. pose proof (end_session_summary x se Hi) as H. destruct (end_session x se) as [s' o]. apply entersw_nil; exact (proj1 H). }
+  assert (Hno : forall x o, listens (ph x) = true -> entersw s x o).
+  { intros x o Hx r tx d H. rewrite H in Hx. discriminate. }
+  destruct (ph s) eqn:Eph; try discriminate.
+  - destruct c as [r| | |l|]; cbn [change_setting].
+    + apply Hno. rewrite Hp. reflexivity.
+    + cbn [enabled set_enabled]. apply Hno. reflexivity.
+    + cbn [enabled set_enabled]. apply Hno. cbn. rewrite Hp. reflexivity.
+    + cbn [enabled set_decode]. destruct (enabled s0); apply Hno; cbn; rewrite ?Hp; reflexivity.
+    + apply (Hterm s0 []). split; reflexivity.
+  - destruct c as [r| | |l|]; cbn [change_setting].
+    + apply Hno. rewrite Hp. reflexivity.
+    + cbn [enabled set_enabled]. apply Hno. cbn. rewrite Hp. reflexivity.
+    + cbn [enabled set_enabled]. apply Hloop.
+    + cbn [enabled set_decode]. destruct (enabled s0); [apply Hno; cbn; rewrite Hp; reflexivity|apply Hloop].
+    + apply (Hterm s0 []). split; reflexivity.
+  - destruct c as [r| | |l|]; cbn [change_setting].
+    + pose proof (transmit_entersw s0 r) as H. destruct (transmit s0 r) as [s' o]. intros r0 tx d E. destruct (H r0 tx d E) as [H1|H1]; [|right; exact H1].
+      rewrite Hp in H1. discriminate.
+    + cbn [enabled set_enabled]. apply Hno. cbn. rewrite Hp. reflexivity.
+    + cbn [enabled set_enabled]. apply Hends. cbn. rewrite Hp. reflexivity.
+    + cbn [enabled set_decode]. destruct (enabled s0); [apply Hno; cbn; rewrite Hp; reflexivity|apply Hends; cbn; rewrite Hp; reflexivity].
+    + apply Hends. rewrite Hp. reflexivity.
+  - destruct c as [r| | |l|]; cbn [change_setting].
+    + apply Hno. rewrite Hp. reflexivity.
+    + cbn [enabled set_enabled]. apply Hno. cbn. rewrite Hp. reflexivity.
+    + cbn [enabled set_enabled]. apply Hloop.
+    + cbn [enabled set_decode]. destruct (enabled s0); [apply Hno; cbn; rewrite Hp; reflexivity|apply Hloop].
+    + apply (Hterm s0 []). split; reflexivity.
+Qed.
+
+Theorem step_entersw s e : let '(s', o) := step cfg s e in entersw s s' o.
+Proof.
+  destruct e as [c st| | |ok|tx k|tx k| | | | | |dt| |dt|]; cbn [step]; try (apply entersw_same; reflexivity).
+  - destruct (Nat.eqb (handles s) 0); [apply entersw_same; reflexivity|].
+    destruct (ph s) eqn:Eph; try (apply entersw_same; reflexivity);
+    (destruct (_ && _); [apply entersw_same; reflexivity|]; destruct st; apply entersw_same; reflexivity).
+  - destruct (listens (ph s)) eqn:El; [|apply entersw_same; reflexivity].
+    destruct (queue s) as [|c q].
+    + destruct (closed s); [|apply entersw_same; reflexivity].
+      destruct (ph s) eqn:Eph; try discriminate;
+        try (pose proof (terminate_summary s [] (conj eq_refl eq_refl)) as H; destruct (terminate s []) as [s' o]; apply entersw_nil; exact (proj1 H)).
+    + apply take_entersw; [reflexivity|exact El].
+  - destruct (ph s) eqn:Eph; try (apply entersw_same; reflexivity). destruct ok.
+    + destruct (retry_call s Reset) as [[s1 d]|].
+      * intros r tx d0 H. discriminate H.
+      * pose proof (crash_summary s) as H. destruct (crash s) as [s' o]. apply entersw_nil; exact (proj1 H).
+    + pose proof (wait_for_summary s LWaitFailed Fail []) as H. destruct (wait_for s LWaitFailed Fail []) as [s' o].
+      rewrite Eph in H. apply entersw_nil; exact (proj1 (H eq_refl (conj eq_refl eq_refl))).
+  - destruct (reading (ph s)); [|apply entersw_same; reflexivity]. destruct (partial s); [apply entersw_same; reflexivity|].
+    unfold on_frame. destruct (ph s) eqn:Eph; try (apply entersw_same; reflexivity).
+    destruct (tx =? tx0); [|apply entersw_same; reflexivity].
+    pose proof (finish_summary s r (respond k)) as H. destruct (finish s r (respond k)) as [s' o]. apply entersw_nil; exact (proj1 H).
+  - destruct (reading (ph s)); [|apply entersw_same; reflexivity]. destruct (partial s); apply entersw_same; reflexivity.
+  - destruct (reading (ph s)); [|apply entersw_same; reflexivity]. destruct (partial s) as [[tx k]|]; [|apply entersw_same; reflexivity].
+    unfold on_frame. cbn [ph set_partial]. destruct (ph s) eqn:Eph; try (apply entersw_same; reflexivity).
+    destruct (tx =? tx0); [|apply entersw_same; reflexivity].
+    pose proof (finish_summary (set_partial s None) r (respond k)) as H. destruct (finish _ r (respond k)) as [s' o]. apply entersw_nil; exact (proj1 H).
+  - destruct (reading (ph s)); [|apply entersw_same; reflexivity]. destruct (partial s); [apply entersw_same; reflexivity|].
+    unfold on_read_error. destruct (ph s) eqn:Eph; try (apply entersw_same; reflexivity).
+    + pose proof (end_session_summary s SeBadFrame) as H. cbn [from_request_err]. destruct (end_session s SeBadFrame) as [s' o]. rewrite Eph in H. apply entersw_nil; exact (proj1 (H eq_refl)).
+    + pose proof (finish_summary s r (RErr ReBadFrame)) as H. destruct (finish s r _) as [s' o]. apply entersw_nil; exact (proj1 H).
+  - destruct (reading (ph s)); [|apply entersw_same; reflexivity].
+    unfold on_read_error. destruct (ph s) eqn:Eph; try (apply entersw_same; reflexivity).
+    + pose proof (end_session_summary s SeIoError) as H. cbn [from_request_err]. destruct (end_session s SeIoError) as [s' o]. rewrite Eph in H. apply entersw_nil; exact (proj1 (H eq_refl)).
+    + pose proof (finish_summary s r (RErr ReIo)) as H. destruct (finish s r _) as [s' o]. apply entersw_nil; exact (proj1 H).
+  - destruct (reading (ph s)); [|apply entersw_same; reflexivity].
+    unfold on_read_error. destruct (ph s) eqn:Eph; try (apply entersw_same; reflexivity).
+    + pose proof (end_session_summary s SeIoError) as H. cbn [from_request_err]. destruct (end_session s SeIoError) as [s' o]. rewrite Eph in H. apply entersw_nil; exact (proj1 (H eq_refl)).
+    + pose proof (finish_summary s r (RErr ReIo)) as H. destruct (finish s r _) as [s' o]. apply entersw_nil; exact (proj1 H).
+  - destruct (ph s) eqn:Eph; try (apply entersw_same; reflexivity).
+    + destruct (fire cfg until <=? now s); [|apply entersw_same; reflexivity]. intros r0 tx0 d0 H. discriminate H.
+    + destruct (fire cfg deadline <=? now s); [|apply entersw_same; reflexivity].
+      pose proof (finish_summary s r (RErr deadline_error)) as H. destruct (finish s r _) as [s' o]. apply entersw_nil; exact (proj1 H).
+    + destruct (fire cfg until <=? now s); [|apply entersw_same; reflexivity].
+      pose proof (loop_top_summary s) as H. destruct (loop_top s) as [s' o]. apply entersw_nil; exact (proj1 H).
+  - destruct (ph s) eqn:Eph; try (pose proof (crash_summary s) as H; destruct (crash s) as [s' o]; apply entersw_nil; exact (proj1 H)).
+    apply entersw_same. reflexivity.
 Qed.
 
 End Laws.
